@@ -49,12 +49,12 @@ theorem C13_append_is_slice_obligation (s s' : PSys) (i : Nat) (m : App)
 
 /-- in every reachable state, every released append is a contiguous slice of the log of the leader
 of its term -/
-theorem C13_append_is_leader_slice (c0 : Cfg) (hne : c0.incoming ≠ [] ∨ c0.outgoing ≠ []) (s : PSys)
-    (hr : ReachC c0 s) (m : App) (hm : m ∈ s.apps) :
+theorem C13_append_is_leader_slice (s : PSys)
+    (hr : Reach s) (m : App) (hm : m ∈ s.apps) :
     m.prev + m.es.length ≤ (s.llog m.term).length ∧
     m.es = ((s.llog m.term).drop m.prev).take m.es.length ∧
     m.prevTerm = termAt (s.llog m.term) m.prev := by
-  have := (invL_reach c0 hne s hr).msg m hm
+  have := (invL_reachR s hr).msg m hm
   exact ⟨this.len, this.slice, this.anchor⟩
 
 /-- a heartbeat advertises at most the leader's commit index and at most an index the addressee
